@@ -24,9 +24,13 @@ Leaves == {
 }
 Seqs == {[t |-> "seq", kind |-> k, items |-> it] : k \in {"list", "tuple"}, it \in {<<>>} \cup {<<a>> : a \in Leaves} \cup {<<P("int:5"), P("int:6")>>}}
 Members == Leaves \cup Seqs
-Holder(a, b) == [t |-> "model", home |-> H("M", <<"Holder">>),
-                 fields |-> << [name |-> "a", v |-> a, dflt |-> NoDefault], [name |-> "b", v |-> b, dflt |-> P("none")] >>]
-Universe == {Holder(a, b) : a \in Members, b \in Members}
+\* c: a field whose default FACTORY yields a non-empty list - an empty (falsy) value is NOT its default
+FactoryDefault == [t |-> "seq", kind |-> "list", items |-> <<P("int:5"), P("int:6")>>]
+CValues == {FactoryDefault, [t |-> "seq", kind |-> "list", items |-> <<>>], [t |-> "seq", kind |-> "list", items |-> <<P("int:5")>>], P("none")}
+Holder(a, b, c) == [t |-> "model", home |-> H("M", <<"Holder">>),
+                    fields |-> << [name |-> "a", v |-> a, dflt |-> NoDefault], [name |-> "b", v |-> b, dflt |-> P("none")],
+                                  [name |-> "c", v |-> c, dflt |-> FactoryDefault] >>]
+Universe == {Holder(a, b, FactoryDefault) : a \in Members, b \in Members} \cup {Holder(a, P("none"), c) : a \in Members, c \in CValues}
 
 Init == v \in Universe
 Next == UNCHANGED v
